@@ -269,6 +269,12 @@ class World:
             for q, c in self.by_method_all.get(name, []):
                 if q == f"{cls}.{name}":
                     return c
+            # the async methods of BaseInterpreter run under the asyncio engine: they call the Interpreter's overrides
+            for base, sub in getattr(self, "subclass_for_dispatch", {}).items():
+                if cls == base:
+                    for q, c in self.by_method_all.get(name, []):
+                        if q == f"{sub}.{name}":
+                            return c
         return self.by_method.get(name)
 
     def assume(self, text: str):
